@@ -698,6 +698,32 @@ func preservePackageSurfaceSymbols(files []parsedFile, cfg *Config, protected *p
 	for i := range files {
 		recordFileQualifiedReferences(files[i].exprs, qualifiedRefs)
 	}
+	// A package's exports are a property of the SESSION, not of one file: the
+	// export form may live in another file than the definition it exports
+	// (an "exports.lisp" next to the implementation files).  The per-file
+	// analysis only marks a definition exported when the export is in the
+	// same file, so collect the export forms of every file first.
+	sessionExports := make(map[string]bool)
+	if cfg == nil || !cfg.RenameExports {
+		for i := range files {
+			currentPkg := "user"
+			for _, expr := range files[i].exprs {
+				if expr.Type != lisp.LSExpr || expr.IsQuoted() || len(expr.Cells) == 0 || expr.Cells[0].Type != lisp.LSymbol {
+					continue
+				}
+				switch expr.Cells[0].Str {
+				case "in-package":
+					if pkg := packageName(expr.Cells[1:]); pkg != "" {
+						currentPkg = pkg
+					}
+				case "export":
+					for _, name := range exportNames(expr.Cells[1:]) {
+						sessionExports[currentPkg+"/"+name] = true
+					}
+				}
+			}
+		}
+	}
 	for i := range files {
 		currentPkg := "user"
 		for _, expr := range files[i].exprs {
@@ -723,7 +749,7 @@ func preservePackageSurfaceSymbols(files []parsedFile, cfg *Config, protected *p
 				}
 			case "defun", "deftype":
 				if len(expr.Cells) > 1 && expr.Cells[1].Type == lisp.LSymbol {
-					if qualifiedRefs[currentPkg+"/"+expr.Cells[1].Str] {
+					if key := currentPkg + "/" + expr.Cells[1].Str; qualifiedRefs[key] || sessionExports[key] {
 						preserveQualifiedDefinitionNode(files[i].analysis, expr.Cells[1], cfg, protected)
 					}
 				}
